@@ -1,5 +1,7 @@
 import GeoVerif.Drv.Util
 import GeoVerif.Drv.C06
+import GeoVerif.Drv.C01
+import GeoVerif.Drv.C02
 /-!
 # Line-protocol driver
 
@@ -14,6 +16,8 @@ def handle (line : String) : String :=
   | cmd :: args =>
     match cmd.splitOn "." with
     | ["ti", op] => handleTI op args
+    | ["pip", op] => handlePip op args
+    | ["rel", op] => handleRel op args
     | _ => "bad-op"
 
 partial def loop (i o : IO.FS.Stream) : IO Unit := do
